@@ -42,7 +42,7 @@ macro "ca_cases" r:ident now:ident conn:ident h:ident " with " lems:Lean.Parser.
   generalize h5 : ratioCmp _ _ _ = a5 at $h:ident ⊢
   generalize h6 : cmpOp Consts.healthOpTryTime _ _ = a6 at $h:ident ⊢
   cases hc : ($r).closed <;> cases hs : ($r).status <;> cases a1 <;> cases a2 <;> cases a3 <;> cases a4 <;> cases a5 <;>
-    cases a6 <;> cases $conn:ident <;> simp_all [cmpOp, $lems,*]))
+    cases a6 <;> cases $conn:ident <;> (try simp_all [cmpOp, $lems,*]) <;> (try omega)))
 
 theorem checkActive_frame (now : Int) (conn : Bool) (r : Rec) :
     (checkActive now conn r).r.failCount = r.failCount ∧ (checkActive now conn r).r.lastFailCount = r.lastFailCount ∧
